@@ -18,7 +18,7 @@ mod verif_c14_sparse {
         let bias: u32 = kani::any();
         let max: u32 = kani::any();
         let r = IntSet::<u32>::from_sparse_bit_set_bounded(&buf[..len], bias, max);
-        if let Ok((set, rest)) = r {
+        if let Ok((set, rest)) = &r {
             assert!(rest.len() <= len);
             let q: u32 = kani::any();
             if set.contains(q) { assert!(q <= max && q >= bias); }
